@@ -802,6 +802,13 @@ class RandomMonotonicInitializer(keras.initializers.Initializer):
     return config
 
 
+def _as_tuples(constraints):
+  """Converts an iterable of list-like constraints into a list of tuples."""
+  if not constraints:
+    return constraints
+  return [tuple(constraint) for constraint in constraints]
+
+
 class LatticeConstraints(keras.constraints.Constraint):
   # pyformat: disable
   """Constraints for `tfl.layers.Lattice` layer.
@@ -871,9 +878,11 @@ class LatticeConstraints(keras.constraints.Constraint):
     self.unimodalities = utils.canonicalize_unimodalities(unimodalities)
     self.edgeworth_trusts = utils.canonicalize_trust(edgeworth_trusts)
     self.trapezoid_trusts = utils.canonicalize_trust(trapezoid_trusts)
-    self.monotonic_dominances = monotonic_dominances
-    self.range_dominances = range_dominances
-    self.joint_monotonicities = joint_monotonicities
+    # Constraints are used as dictionary keys by the projection. After a
+    # round trip through a JSON config they come back as lists.
+    self.monotonic_dominances = _as_tuples(monotonic_dominances)
+    self.range_dominances = _as_tuples(range_dominances)
+    self.joint_monotonicities = _as_tuples(joint_monotonicities)
     self.joint_unimodalities = joint_unimodalities
     self.output_min = output_min
     self.output_max = output_max
